@@ -26,6 +26,7 @@ def cases(tier, seed):
     for i in range(n):
         out.append({"name": "poll.model/%d" % i, "kind": "gen", "idx": i})
     out.append({"name": "poll.cancel-table", "kind": "ctable"})
+    out.append({"name": "poll.cancel-table-falsy", "kind": "cfalsy"})
     for what in ("notify", "complete_other", "notify+complete_other"):
         for answer in (True, False):
             out.append({"name": "poll.slow-cancel-fn/%s/%s" % (what, answer), "kind": "slowcfn", "what": what, "answer": answer})
@@ -549,6 +550,44 @@ class NPScenario(PScenario):
             res.key("nested", self.case["name"], info.get("site"))
 
 
+def run_cfalsy(case, res):
+    """The delegate's result (what the cancel function is called with) is a falsy value: the veto still counts."""
+    ME = instr.ME
+    for value in (0, "", None, False, (), 0.0):
+        for answer in (False, True, "raise"):
+            begin("vt")
+            ctx = Ctx()
+            try:
+                me = ManualExecutor("me")
+                ctx.own(me)
+                asked = []
+
+                def cancel_fn(r):
+                    asked.append(r)
+                    if answer == "raise":
+                        raise UserErrorB("cancel_fn")
+                    return answer
+                ex = ctx.own(ME.Executors.with_poll(me, lambda ds: None, cancel_fn, 20.0))
+                f = ex.submit(lambda: None)
+                instr.advance(0.05)
+                me.complete(0, value)
+                instr.advance(0.25)
+                r = f.cancel()
+                instr.advance(0.25)
+                res.execs += 1
+                check_common(res)
+                label = "cancel-table delegate result %r, cancel function %s" % (value, answer)
+                if len(asked) != 1 or asked[0] is not value and asked[0] != value:
+                    res.violation("cancel-fn/not-consulted", "%s: cancel function called with %r" % (label, asked))
+                if answer is not True and (r is not False or f.cancelled()):
+                    res.violation("cancel-fn/veto-ignored", "%s: cancel() returned %r, future cancelled=%s" % (label, r, f.cancelled()))
+                if answer is True and r is not True:
+                    res.violation("cancel-fn/consent-ignored", "%s: cancel() returned %r" % (label, r))
+                res.key("cfalsy", repr(value), answer)
+            finally:
+                end(ctx)
+
+
 def run_slowcfn(case, res):
     """The cancel function takes its time (3 virtual seconds); meanwhile a notify() arrives / another future becomes
     eligible: the poll thread serves them at that time, it does not wait for the cancel function to return."""
@@ -641,6 +680,8 @@ def run_case(case, res):
         return run_ctable(case, res)
     if case["kind"] == "slowcfn":
         return run_slowcfn(case, res)
+    if case["kind"] == "cfalsy":
+        return run_cfalsy(case, res)
     if case["kind"] == "nested":
         rng = random.Random("c08n/%s/%s" % (case["seed"], case["name"]))
         SweepNested(NPScenario(case), res, "vt", case["name"]).run(case["cap_a"], case["cap_b"], rng, per_site=1, a_slice=case["slice"])
